@@ -47,6 +47,29 @@ CLAIMED = {
              "every operation) and the oracle; the world-level theorem is future work.",
         technique="Lean 4 proof (structural induction, balance invariant) + correspondence check",
         design_ref="6/C06"),
+    "C03": dict(
+        text="Theorems (all canonical tries, all keys, all node lists, no bound; for every hash function with 32-byte output, "
+             "instantiated for rlp+Keccak): get_proof contains only subtrees at prefixes of the key (proof_on_path); the Layer-D "
+             "reader that decodes rlp bytes from a database (get_node/_traverse_from/_get transcribed) returns get(key) when the "
+             "stored path nodes resolve (getD_of_path), hence get_from_proof(root, key, get_proof(key)) = get(key) "
+             "(proof_complete); for EVERY offered node list it returns the true value or BadTrieProof and nothing else "
+             "(proof_sound) and BadTrieProof whenever a stored path node is withheld (proof_withheld), under the run-level "
+             "NoCollision predicate (fails only if the run exhibits a hash collision; no injectivity assumed). The RLP decoder "
+             "round trip (rlpDecode_rlp_of_length_lt, items < 2^64 bytes) and hex-prefix round trip are proved. Tie: get_proof "
+             "node lists and get_from_proof outcomes on honest and forged streams against the Lean Layer-D reader.",
+        technique="Lean 4 proof (Layer-D reader vs tree induction, RLP round trip) + correspondence check incl. forged proofs",
+        design_ref="6/C03"),
+    "C08": dict(
+        text="Theorems (all canonical tries, all nibble paths, no bound): traverse is blank iff no stored key starts with the path "
+             "(traverse_blank_iff); the returned description (real or simulated node) covers exactly the contents below the path "
+             "(traverse_covers, traverse_value, traverse_subs: non-empty, inhabited, prefix-free sub-segments); "
+             "TraversedPartialPath only inside a leaf/extension with traversed++tail = path and always with a simulated node "
+             "(traverse_partial_sim); traverse_from(node at prefix, seg) = traverse(prefix++seg), also from simulated nodes "
+             "(traverse_from_eq, traverse_from_sim); root_node = traverse(()) (traverse_nil); database reads of a traversal "
+             "are at most one per nibble hop (traverse_reads_le). Tie: every field of traverse/traverse_from results incl. "
+             "raw node and exception fields, and read counts, against the model and an independent contents-only oracle.",
+        technique="Lean 4 proof (structural induction on the tree model, reduction to one-step traversal) + correspondence check",
+        design_ref="6/C08"),
 }
 REASON_PENDING = "check not built yet in this revision (work in progress, see DESIGN.md section 10)"
 
